@@ -115,7 +115,9 @@ def run(ctx):
         got = _fields(ctx, uu, ff)
         got['kind'] = ev_.get(got.get('kind'), got.get('kind'))
         pp = params_of(ff)
-        tk, ck = '%s#%s' % (pp[0]['name'], pp[0]['id']), '%s#%s' % (pp[1]['name'], pp[1]['id'])
+        sub_ = ctx.facts(ff).keys.subst          # (a parameter every caller binds to one value is keyed as that value)
+        tk = sub_.get(pp[0]['id'], '%s#%s' % (pp[0]['name'], pp[0]['id']))
+        ck = sub_.get(pp[1]['id'], '%s#%s' % (pp[1]['name'], pp[1]['id']))
         ren = {tk + '.unix_time': 'U', tk + '.civil_sec': 'C', tk + '.prev_civil_sec': 'P', ck: 'cs'}
         ctx.check(got.get('kind') == w['kind'], 'C02-fields', '%s: kind == %s' % (nm, w['kind']), ff,
                   '%s labels its result %s' % (nm, got.get('kind')), construct='fields:%s:kind' % nm)
@@ -136,7 +138,7 @@ def run(ctx):
     uu, ff = G.defs[ks[0]]
     got = _fields(ctx, uu, ff)
     got['kind'] = ev_.get(got.get('kind'), got.get('kind'))
-    pk = '%s#%s' % (params_of(ff)[0]['name'], params_of(ff)[0]['id'])
+    pk = ctx.facts(ff).keys.subst.get(params_of(ff)[0]['id'], '%s#%s' % (params_of(ff)[0]['name'], params_of(ff)[0]['id']))
     ctx.check(got.get('kind') == 'UNIQUE' and all(got.get(x) == {pk: 1} for x in ('pre', 'trans', 'post')), 'C02-fields',
               'MakeUnique: kind == UNIQUE, pre == trans == post == the instant', ff,
               'MakeUnique does not give all three fields the one instant (%s)' % {k_: got.get(k_) for k_ in ('kind', 'pre', 'trans', 'post')},
